@@ -466,6 +466,9 @@ func runC09(r *core.Run) {
 								for _, fb := range vecForms(n) {
 									for _, mode := range modes {
 										laRun(r, laCase{op: "Outer", d: d, sa: fa, sb: fb, la: la, lb: lb, mode: mode, vs: vs, api: "method"})
+										if mode != "safe" && la == "C" && lb == "C" {
+											laRun(r, laCase{op: "Outer", d: d, sa: fa, sb: fb, la: la, lb: lb, mode: mode, vs: vs, api: "func"})
+										}
 									}
 									laRun(r, laCase{op: "Outer", d: d, sa: fa, sb: fb, la: la, lb: lb, mode: "safe", vs: vs, api: "func"})
 								}
@@ -476,6 +479,10 @@ func runC09(r *core.Run) {
 							for _, fb := range vecForms(k) {
 								for _, mode := range modes {
 									laRun(r, laCase{op: "MatVecMul", d: d, sa: []int{m, k}, sb: fb, la: la, lb: lb, mode: mode, vs: vs, api: "method"})
+									if mode != "safe" && (la == "C" || lb == "C") {
+										// the package-level entry point must honour the same options
+										laRun(r, laCase{op: "MatVecMul", d: d, sa: []int{m, k}, sb: fb, la: la, lb: lb, mode: mode, vs: vs, api: "func"})
+									}
 									if mode != "reuse+incr" {
 										laRun(r, laCase{op: "Dot", d: d, sa: []int{m, k}, sb: fb, la: la, lb: lb, mode: mode, vs: vs, api: "func"})
 										laRun(r, laCase{op: "Dot", d: d, sa: fb, sb: []int{k, m}, la: lb, lb: la, mode: mode, vs: vs, api: "func"})
@@ -486,6 +493,9 @@ func runC09(r *core.Run) {
 							for n := 1; n <= maxd; n++ {
 								for _, mode := range modes {
 									laRun(r, laCase{op: "MatMul", d: d, sa: []int{m, k}, sb: []int{k, n}, la: la, lb: lb, mode: mode, vs: vs, api: "method"})
+									if mode != "safe" && (la == "C" || lb == "C") {
+										laRun(r, laCase{op: "MatMul", d: d, sa: []int{m, k}, sb: []int{k, n}, la: la, lb: lb, mode: mode, vs: vs, api: "func"})
+									}
 									if mode != "reuse+incr" {
 										laRun(r, laCase{op: "Dot", d: d, sa: []int{m, k}, sb: []int{k, n}, la: la, lb: lb, mode: mode, vs: vs, api: "func"})
 									}
